@@ -5,6 +5,7 @@ import (
 	"fmt"
 	"go/token"
 	"go/types"
+	"sort"
 	"strings"
 
 	"gunyucheck/core"
@@ -1660,7 +1661,14 @@ func ruleTxnStateMachine(w *core.World, r *core.Report) {
 		r.Unresolved("transactionStatus/params", "unexpected signature")
 		return
 	}
+	no0, _ := pkgConstInt(w, "syncer", "txnStatusNo")
+	if foldTxnStateMachine(w, r, f, map[string]int64{"no": no0, "begin": begin, "in": in_, "barrier": barrier, "commit": commit}) {
+		return
+	}
 	prev := f.Params[1]
+	if b, isB := f.Params[1].Type().Underlying().(*types.Basic); isB && b.Info()&types.IsString != 0 {
+		prev = f.Params[0]
+	}
 	isPrev := func(v ssa.Value) bool { return core.Unwrap(v) == ssa.Value(prev) }
 	bad := ""
 	var badPos token.Pos
@@ -2094,4 +2102,142 @@ func ruleTxnDefault(w *core.World, r *core.Report) {
 	if n == 0 {
 		r.Fail("ReplayConfig.fix/replayTransaction-default", f.Pos(), "an omitted replayTransaction is not normalised: the field stays nil")
 	}
+}
+
+// foldTxnStateMachine decides the transition function over its whole domain by constant folding: five previous
+// states times the commands of the table plus "any other command" (the command parameter is used for nothing but
+// the table look-up, so all other commands behave alike). It reports the same constructs as the path form and
+// returns false when the function is outside what the folder reads (the path form then decides).
+func foldTxnStateMachine(w *core.World, r *core.Report, f *ssa.Function, st map[string]int64) bool {
+	var cmdPar, prevPar *ssa.Parameter
+	for _, p := range f.Params {
+		if b, isB := p.Type().Underlying().(*types.Basic); isB && b.Info()&types.IsString != 0 {
+			cmdPar = p
+		} else {
+			prevPar = p
+		}
+	}
+	if cmdPar == nil || prevPar == nil {
+		return false
+	}
+	// the command is only ever looked up in the table
+	var table *ssa.Global
+	for _, rf := range *cmdPar.Referrers() {
+		switch x := rf.(type) {
+		case *ssa.DebugRef:
+		case *ssa.Lookup:
+			ld, ok := x.X.(*ssa.UnOp)
+			if !ok || x.Index != ssa.Value(cmdPar) {
+				return false
+			}
+			g, ok := ld.X.(*ssa.Global)
+			if !ok || (table != nil && g != table) {
+				return false
+			}
+			table = g
+		default:
+			return false
+		}
+	}
+	if table == nil {
+		return false
+	}
+	cf := &constFolder{w: w}
+	content, known := cf.mapLiteral(table)
+	if !known {
+		return false
+	}
+	tab := map[string]int64{}
+	for _, e := range content {
+		v, isC := e.val.(constant.Value)
+		if e.key.Kind() != constant.String || !isC || v.Kind() != constant.Int {
+			return false
+		}
+		k, _ := constant.Int64Val(v)
+		tab[constant.StringVal(e.key)] = k
+	}
+	cmds := []string{"\x00any other command"}
+	for k := range tab {
+		cmds = append(cmds, k)
+	}
+	sort.Strings(cmds)
+	eval := func(prev int64, cmd string) (next int64, flush, ok bool) {
+		args := make([]interface{}, len(f.Params))
+		for i, p := range f.Params {
+			if p == cmdPar {
+				args[i] = constant.MakeString(cmd)
+			} else {
+				args[i] = constant.MakeInt64(prev)
+			}
+		}
+		cf := &constFolder{w: w}
+		rs, ok := cf.foldCall(f, args, 0)
+		if !ok || len(rs) != 2 {
+			return 0, false, false
+		}
+		a, okA := rs[0].(constant.Value)
+		b, okB := rs[1].(constant.Value)
+		if !okA || !okB || a.Kind() != constant.Int || b.Kind() != constant.Bool {
+			return 0, false, false
+		}
+		n, _ := constant.Int64Val(a)
+		return n, constant.BoolVal(b), true
+	}
+	// everything must fold, else the path form decides
+	for _, prev := range st {
+		for _, c := range cmds {
+			if _, _, ok := eval(prev, c); !ok {
+				return false
+			}
+		}
+	}
+	bad := ""
+	for _, name := range []string{"begin", "in"} {
+		for _, c := range cmds {
+			next, flush, _ := eval(st[name], c)
+			isExec := false
+			if k, inTab := tab[c]; inTab && k == st["commit"] {
+				isExec = true
+			}
+			switch {
+			case isExec && !(next == st["commit"] && flush):
+				bad = fmt.Sprintf("inside a transaction (%s) the EXEC command must lead to (commit, flush), got (%d, %v)", name, next, flush)
+			case !isExec && flush:
+				bad = fmt.Sprintf("inside a transaction (%s) a flush is requested for %q, which is not the EXEC command", name, c)
+			case !isExec && next != st["in"]:
+				bad = fmt.Sprintf("inside a transaction (%s) the non-EXEC command %q must stay in the in-transaction state, got %d", name, c, next)
+			}
+		}
+	}
+	r.Check(bad == "", "transactionStatus/inside", f.Pos(), "%s", bad)
+	for _, name := range []string{"no", "barrier", "commit"} {
+		bad := ""
+		for _, c := range cmds {
+			next, flush, _ := eval(st[name], c)
+			if k, inTab := tab[c]; inTab {
+				if next != k || !flush {
+					bad = fmt.Sprintf("table command %q must give (table[cmd], true), got (%d, %v)", c, next, flush)
+				}
+			} else if next != st["no"] || flush {
+				bad = fmt.Sprintf("a command outside the table must give (no, false), got (%d, %v)", next, flush)
+			}
+		}
+		r.Check(bad == "", "transactionStatus/outside-"+name, f.Pos(),
+			"previous state %q must be handled by the command-table lookup: (table[cmd], true) for select/multi/exec, (no, false) otherwise (%s)", name, bad)
+	}
+	// the table itself
+	want := map[string]int64{"select": st["barrier"], "multi": st["begin"], "exec": st["commit"]}
+	okK, okV := len(tab) == len(want), len(tab) == len(want)
+	for k, v := range want {
+		got, has := tab[k]
+		if !has {
+			okK = false
+		}
+		if got != v {
+			okV = false
+		}
+	}
+	r.Check(okK, "transactionCmdMap/keys", table.Pos(), "command table must be exactly {select, multi, exec}, found %v", cmds[1:])
+	r.Check(okV, "transactionCmdMap/values", table.Pos(), "command table must map select→barrier, multi→begin, exec→commit, found %v", tab)
+	return true
 }
